@@ -279,7 +279,8 @@ func (w *replayerWorld) doReplayBiased(classWeights []int) {
 		desc = "unset"
 	default:
 		class = idNever
-		nevers := []string{"zzz", "", "id0", "-1", "18446744073709551615", "99999999999999999999", "1e3", "id999"}
+		nevers := []string{"zzz", "", "id0", "-1", "18446744073709551615", "99999999999999999999", "1e3", "id999",
+			"9223372036854775807", "9223372036854775808", "4294967296", "4294967295", "-0", "0x1", "1_0", "\u0663", "\uff11"}
 		if w.auto {
 			nevers = append(nevers, strconv.FormatUint(w.nextAuto, 10), strconv.FormatUint(w.nextAuto+5, 10))
 		}
@@ -539,6 +540,9 @@ func runReplayerWorld(rc *RunCtx) (out *Outcome) {
 	}()
 	if w.finite {
 		w.n = ch.Weighted([]int{4, 4, 3, 2, 1, 1, 1}, "capacity") + 2
+		if ch.Chance(1, 12, "large capacity") {
+			w.n = []int{15, 16, 17, 33}[ch.Intn(4, "large capacity value")]
+		}
 		fr, err := sse.NewFiniteReplayer(w.n, w.auto)
 		if err != nil {
 			o.violate("C08", "constructor", "NewFiniteReplayer(%d): %v", w.n, err)
